@@ -9,7 +9,8 @@ HERE = os.path.dirname(os.path.abspath(__file__))
 VERIF = os.path.dirname(HERE)
 BUILD = os.path.join(VERIF, "build")
 TARGET = os.path.join(BUILD, "target")
-ENV = dict(os.environ, CARGO_NET_OFFLINE="true", CARGO_TARGET_DIR=TARGET)
+ENV = dict(os.environ, CARGO_NET_OFFLINE="true", CARGO_TARGET_DIR=TARGET, CARGO_INCREMENTAL="0")
+PROFILE = "[profile.dev]\ndebug = 0\nincremental = false\n[profile.release]\ndebug = 0\nincremental = false\n"
 
 
 def hexs(s):
@@ -494,7 +495,7 @@ pest_derive = "=2.7.14"
         old = open(path).read() if os.path.exists(path) else None
         if old != new:
             open(path, "w").write(new)
-    ws = "[workspace]\nresolver = \"2\"\nmembers = [" + ", ".join(f'"{m}"' for m in members) + "]\n" + profile_note
+    ws = "[workspace]\nresolver = \"2\"\nmembers = [" + ", ".join(f'"{m}"' for m in members) + "]\n" + PROFILE + profile_note
     open(os.path.join(outdir, "Cargo.toml"), "w").write(ws)
     subprocess.check_call(["cp", "/repo/Cargo.lock", os.path.join(outdir, "Cargo.lock")])
     return where
